@@ -113,6 +113,7 @@ func (s *Session) Auth(mech string) (sasl.Server, error) {
 }
 
 func (s *Session) Reset() {
+	defer verifCall(s, "RSET", "")()
 	s.msgLock.Lock()
 	defer s.msgLock.Unlock()
 
@@ -273,6 +274,7 @@ func (s *Session) startDelivery(ctx context.Context, from string, opts smtp.Mail
 	defer mailTask.End()
 
 	delivery, err := s.endp.pipeline.Start(mailCtx, msgMeta, cleanFrom)
+	delivery = verifWrapDelivery(s, delivery, err)
 	if err != nil {
 		s.msgCtx = nil
 		s.msgTask.End()
@@ -290,7 +292,9 @@ func (s *Session) startDelivery(ctx context.Context, from string, opts smtp.Mail
 }
 
 func (s *Session) Mail(from string, opts *smtp.MailOptions) error {
+	defer verifCall(s, "MAIL", from)()
 	if s.endp.authAlwaysRequired && s.connState.AuthUser == "" {
+		verifReplyErr(s, smtp.ErrAuthRequired)
 		return smtp.ErrAuthRequired
 	}
 
@@ -301,6 +305,7 @@ func (s *Session) Mail(from string, opts *smtp.MailOptions) error {
 		// The pinned go-smtp accepts MAIL inside a transaction. Starting a
 		// second delivery (or replacing the sender the limits were taken
 		// for) would leak the first one.
+		verifReplyCode(s, 503)
 		return &smtp.SMTPError{
 			Code:         503,
 			EnhancedCode: smtp.EnhancedCode{5, 5, 1},
@@ -362,6 +367,7 @@ func (s *Session) fetchRDNSName(ctx context.Context) {
 }
 
 func (s *Session) Rcpt(to string, opts *smtp.RcptOptions) error {
+	defer verifCall(s, "RCPT", to)()
 	s.msgLock.Lock()
 	defer s.msgLock.Unlock()
 
@@ -371,6 +377,7 @@ func (s *Session) Rcpt(to string, opts *smtp.RcptOptions) error {
 		// fail again.
 		if s.deliveryErr != nil {
 			s.repeatedMailErrs++
+			verifReplyErr(s, s.deliveryErr)
 			// The deliveryErr is already wrapped.
 			return s.deliveryErr
 		}
@@ -435,6 +442,7 @@ func (s *Session) rcpt(ctx context.Context, to string, opts *smtp.RcptOptions) e
 }
 
 func (s *Session) Logout() error {
+	defer verifCall(s, "QUIT", "")()
 	s.msgLock.Lock()
 	defer s.msgLock.Unlock()
 
@@ -486,6 +494,7 @@ func (s *Session) prepareBody(r io.Reader) (textproto.Header, buffer.Buffer, err
 }
 
 func (s *Session) Data(r io.Reader) error {
+	defer verifCall(s, "DATA", "")()
 	s.msgLock.Lock()
 	defer s.msgLock.Unlock()
 
@@ -557,6 +566,7 @@ func (sw statusWrapper) SetStatus(rcpt string, err error) {
 }
 
 func (s *Session) LMTPData(r io.Reader, sc smtp.StatusCollector) error {
+	defer verifCall(s, "DATA", "")()
 	s.msgLock.Lock()
 	defer s.msgLock.Unlock()
 
@@ -638,6 +648,7 @@ func (endp *Endpoint) wrapErr(msgId string, mangleUTF8 bool, command string, err
 	}
 
 	if errors.Is(err, context.DeadlineExceeded) {
+		verifWrapped(endp, 451)
 		return &smtp.SMTPError{
 			Code:         451,
 			EnhancedCode: smtp.EnhancedCode{4, 4, 5},
@@ -720,5 +731,6 @@ func (endp *Endpoint) wrapErr(msgId string, mangleUTF8 bool, command string, err
 		res.Message = b.String()
 	}
 
+	verifWrapped(endp, res.Code)
 	return res
 }
